@@ -223,8 +223,7 @@ theorem recv_accepts_iff (s : Inflight) (hi : s.Inv) (now : Nat) (ht : s.Timed n
     (s.recv kind tid src now).2 = true ↔
       src.port ≠ 0 ∧ (kind = .request ∨
         ∃ r ∈ s.requests, Answers r tid src ∧ s.live r now = true) := by
-  unfold recv
-  simp only
+  unfold recv Inflight.decide
   by_cases hp : src.port = 0
   · simp [hp]
   · have hp' : (src.port == 0) = false := by simpa using hp
@@ -250,7 +249,7 @@ theorem recv_accepts_iff (s : Inflight) (hi : s.Inv) (now : Nat) (ht : s.Timed n
 /-- a datagram from port 0 is never handed up and never consumes a request -/
 theorem port_zero_dropped (s : Inflight) (kind : Incoming) (tid : Nat) (src : Addr) (now : Nat)
     (h : src.port = 0) : s.recv kind tid src now = (s.cleanup now, false) := by
-  simp [recv, h]
+  simp [recv, Inflight.decide, h]
 
 /-! ### transaction ids -/
 
@@ -292,8 +291,7 @@ theorem recv_inv (s : Inflight) (hi : s.Inv) (kind : Incoming) (tid : Nat) (src 
   have hc := inv_cleanup s hi now
   have hsub := cleanup_requests_sublist s now
   have hn := (cleanup_fields s now).1
-  unfold recv
-  simp only
+  unfold recv Inflight.decide
   split
   · exact ⟨hc, hn, hsub⟩
   · cases kind with
